@@ -159,7 +159,7 @@ def run_nj(V, acc, dt, per, xi):
 
 
 @unit('C02', 'relations-between-executions-of-the-real-code', functions=[SD + 'nigam_and_jennings_response', SD + 'compute_a_and_b', SD + 'pseudo_response_spectra'],
-      cases=[dict(law=l) for l in ('linearity', 'causality', 'shift', 'period-order-and-batching')],
+      cases=[dict(law=l) for l in ('linearity', 'causality', 'shift', 'period-order-and-batching', 'three-period-rotations')],
       modes=('bounded',), sizes=dict(n=[3, 4]), budget_ms=60000)
 def relations(V, law):
     st = {}
@@ -206,6 +206,23 @@ def relations(V, law):
                 out.prove('prepending-%d-zeros-delays-the-response-by-%d-samples' % (k, k),
                           T.sand(*[T.sand(T.seq(Us[r, j + k], U0[r, j]), T.seq(Vs[r, j + k], V0[r, j])) for r in range(2) for j in range(n)] +
                                  [T.sand(T.seq(Us[r, j], 0), T.seq(Vs[r, j], 0)) for r in range(2) for j in range(k)]), atomize=True)
+        elif law == 'three-period-rotations':
+            # three periods in ANY relative order (no ordering is assumed between T1, T2, T3) and the two cyclic rotations of the
+            # list: a permutation that is not its own inverse tells "rows returned in the caller's order" from "rows un-sorted wrongly"
+            T3 = V.real('T3')
+            V.assume(T3 > 0)
+            base = [T1, T2, T3]
+            U3, V3, A3 = run_nj(V, a, dt, V.np.np_array(base), xi)
+            for r, Tr in enumerate(base):
+                U1, V1, A1 = run_nj(V, a, dt, V.np.np_array([Tr]), xi)
+                out.prove('row-%d-of-three-is-the-response-of-its-own-period' % r,
+                          T.sand(*[T.sand(T.seq(U3[r, j], U1[0, j]), T.seq(V3[r, j], V1[0, j]), T.seq(A3[r, j], A1[0, j])) for j in range(n)]), atomize=True)
+            for rot in (1, 2):
+                lst = base[rot:] + base[:rot]
+                Ur, Vr, Ar = run_nj(V, a, dt, V.np.np_array(lst), xi)
+                out.prove('rotating-the-period-list-by-%d-rotates-the-rows' % rot,
+                          T.sand(*[T.sand(T.seq(Ur[r, j], U3[(r + rot) % 3, j]), T.seq(Vr[r, j], V3[(r + rot) % 3, j]), T.seq(Ar[r, j], A3[(r + rot) % 3, j]))
+                                   for r in range(3) for j in range(n)]), atomize=True)
         elif law == 'period-order-and-batching':
             Ur, Vr, Ar = run_nj(V, a, dt, V.np.np_array([T2, T1]), xi)
             out.prove('reordering-the-period-list-permutes-the-rows', T.sand(*[T.sand(T.seq(Ur[1 - r, j], Ua[r, j]), T.seq(Vr[1 - r, j], Va[r, j]), T.seq(Ar[1 - r, j], Aa[r, j]))
